@@ -223,6 +223,88 @@ func ZZ_C05_A2_handlers_debit_only_authorized() {
 	}
 }
 
+// C05 / A2 for the DEX messages: a limit order and a liquidity deposit escrow the sender's coins, a
+// liquidity withdrawal queues a pay-out of pool points. Over the DEX world (three accounts, a pending
+// batch, a liquidity pool with accounts 0 and 1 as providers) and an arbitrary message of each kind: the
+// only account the handler debits is one of the message's authorized signers, the authorized signers
+// are exactly the message's own Address, and the entry the handler queues in the batch (what the
+// later settlement refunds, pays or burns points for) names an authorized signer - so nobody's
+// coins or liquidity points are committed by a transaction their key did not sign.
+//
+//zz:harness mode=int unwind=60 maxpaths=60000 timebudget=1200 replay=model
+//zz:reach A2.dex.executed A2.dex.rejected
+func ZZ_C05_A2_dex_messages_commit_only_the_signers_funds() {
+	sm, _ := zzFSM(10)
+	zzDexWorld(sm)
+	// two liquidity providers (accounts 0 and 1), so a withdrawal has somebody else's points to take
+	lp, e := sm.GetPool(2 + LiquidityPoolAddend)
+	if e != nil {
+		panic("pool")
+	}
+	lp.Points = []*lib.PoolPoints{{Address: zzAddr(0), Points: 60}, {Address: zzAddr(1), Points: 40}}
+	if sm.SetPool(lp) != nil {
+		panic("pool")
+	}
+	sm.ResetCaches()
+	a := zzConcrete(zzInt("a"), 0, 2)
+	var msg lib.MessageI
+	var run func() lib.ErrorI
+	kind := zzConcrete(zzInt("kind"), 0, 2)
+	switch kind {
+	case 0:
+		m := &MessageDexLimitOrder{ChainId: 2, AmountForSale: zzN64("amount"), RequestedAmount: zzN64("req"), Address: zzAddr(a), OrderId: zzOrderId}
+		msg, run = m, func() lib.ErrorI { return sm.HandleMessageDexLimitOrder(m) }
+	case 1:
+		m := &MessageDexLiquidityDeposit{ChainId: 2, Amount: zzN64("amount"), Address: zzAddr(a), OrderId: zzOrderId}
+		msg, run = m, func() lib.ErrorI { return sm.HandleMessageDexLiquidityDeposit(m) }
+	case 2:
+		m := &MessageDexLiquidityWithdraw{ChainId: 2, Percent: zzN64("percent"), Address: zzAddr(a), OrderId: zzOrderId}
+		msg, run = m, func() lib.ErrorI { return sm.HandleMessageDexLiquidityWithdraw(m) }
+	}
+	auth, ok := zzAuthorizedIdx(sm, msg)
+	if !ok {
+		return
+	}
+	for i := 0; i < 3; i++ {
+		zzAssert("A2.dex.authorized-is-exactly-the-message-address", auth[i] == (i == a))
+	}
+	before := zzBalances(sm)
+	if run() != nil {
+		zzReach("A2.dex.rejected")
+		return
+	}
+	zzReach("A2.dex.executed")
+	after := zzBalances(sm)
+	for i := 0; i < 3; i++ {
+		if !auth[i] {
+			zzAssert("A2.dex.only-authorized-signers-are-debited", after[i] >= before[i])
+		}
+	}
+	b, err := sm.GetDexBatch(2, false)
+	zzAssert("A2.dex.batch-readable", err == nil)
+	var queued []byte
+	switch kind {
+	case 0:
+		zzAssert("A2.dex.order-queued", len(b.Orders) == 2)
+		queued = b.Orders[1].Address
+	case 1:
+		zzAssert("A2.dex.deposit-queued", len(b.Deposits) == 2)
+		queued = b.Deposits[1].Address
+	case 2:
+		zzAssert("A2.dex.withdraw-queued", len(b.Withdrawals) == 1)
+		queued = b.Withdrawals[0].Address
+	}
+	named := false
+	for i := 0; i < 3; i++ {
+		if auth[i] && bytes.Equal(queued, zzAddr(i)) {
+			named = true
+		}
+	}
+	zzAssert("A2.dex.queued-entry-names-an-authorized-signer", named)
+	// the entries that were already pending keep their owners
+	zzAssert("A2.dex.pending-entries-keep-their-owners", bytes.Equal(b.Orders[0].Address, zzAddr(0)) && bytes.Equal(b.Deposits[0].Address, zzAddr(1)))
+}
+
 // C05 / A2 for staked funds: the address a validator's stake and rewards are paid out to (Output)
 // belongs to the owner of the funds; for a non-custodial validator the operator key may edit the
 // validator but must not redirect its funds. Real HandleMessageEditStake on a non-custodial
